@@ -554,8 +554,8 @@ theorem updChildM_eq (n : Node) (k : String) (f : Option Node → Node × Option
   cases hv : isVar k <;> simp [kids, setKids, updKidM_eq]
 
 /-- **A failing `add` leaves nothing visible behind** (also `errDupSlash`, which may leave item-less nodes in the real
-tree): the tree after the failing call is well-formed and stores, key for key, what it stored before — so every
-theorem stated through `WF` and `lookupW` (`tree_search_raw`, `tree_search_raw_admissible`, `tree_add_accepts`, …)
+tree): the tree after the failing call is well-formed and stores, key for key, what it stored before — so every theorem
+that is stated through `WF` and `lookupW` (`tree_search_raw`, `tree_search_raw_admissible`, `tree_add_accepts`, …)
 speaks about the REAL tree after any history of successful and failing raw `Add` calls. -/
 theorem addM_error_invisible (toks : List String) : ∀ (n : Node) (h : H) (e : AddErr), WF n →
     (addM toks n h).2 = some e →
